@@ -393,8 +393,13 @@ namespace vf::prog {
             case 3: r.ev.wait(); break;
             case 4:
             {
+                // a timed wait on a task is a (priority-boosted) yield loop until the deadline.  On a pool whose only free worker runs
+                // this loop, a signaller that is still *staged* is never converted into a thread (staged work is only looked at when a
+                // worker finds nothing pending): polling for ever would be a livelock made by the program, not a dropped task.  So: a
+                // bounded number of timed waits, then a blocking one (the worker goes idle and converts staged work)
                 std::unique_lock<pika::mutex> l(r.mtx);
-                while (!r.flag) r.cv.wait_for(l, std::chrono::milliseconds(1));
+                for (int polls = 0; !r.flag && polls < 40; ++polls) r.cv.wait_for(l, std::chrono::milliseconds(1));
+                r.cv.wait(l, [&] { return r.flag; });
                 break;
             }
             }
